@@ -83,27 +83,36 @@ def check(run, ctx):
         run.finding(N1, "python_analyzer._visit_control_structure", f"inc:{inc_py}/{inc_if}", "a nesting construct does not add exactly 1 before the depth is recorded", vcs.loc)
     vch = repo.func(f"{PKG}.python_analyzer._visit_children")
     c2 = [c for c in ast.walk(vch.node) if is_call_named(c, "_visit_node")]
-    if c2 and isinstance(c2[0].args[1], ast.Name) and c2[0].args[1].id == "current_depth":
+    vch_depth = vch.node.args.args[1].arg if len(vch.node.args.args) > 1 else None   # the depth parameter, whatever it is called
+    if c2 and isinstance(c2[0].args[1], ast.Name) and c2[0].args[1].id == vch_depth:
         run.ok(N1, "python non-nesting nodes", "children visited at unchanged depth")
     else:
         run.finding(N1, "python_analyzer._visit_children", "depth-changed", "non-nesting nodes change the depth passed to their children", vch.loc)
     # ---- tree-sitter walkers
     for lang, cq in (("typescript", f"{PKG}.typescript_analyzer.TypeScriptNestingAnalyzer"), ("rust", f"{PKG}.rust_analyzer.RustNestingAnalyzer")):
         f = repo.func(f"{cq}.calculate_max_depth")
-        inner = next((n for n in ast.walk(f.node) if isinstance(n, ast.FunctionDef) and n.name == "visit_node"), None)
-        run.require(inner is not None, f"{lang}: visit_node closure not found")
-        init = [c for c in ast.walk(f.node) if is_call_named(c, "visit_node") and not any(c is x for x in ast.walk(inner))]
+        # the depth walker is the closure that calls itself, whatever its name
+        inner = next((n for n in ast.walk(f.node) if isinstance(n, ast.FunctionDef) and n is not f.node and any(isinstance(c, ast.Call) and isinstance(c.func, ast.Name) and c.func.id == n.name for c in ast.walk(n))), None)
+        run.require(inner is not None, f"{lang}: self-recursive depth-walker closure not found")
+        init = [c for c in ast.walk(f.node) if is_call_named(c, inner.name) and not any(c is x for x in ast.walk(inner))]
         run.require(len(init) == 1, f"{lang}: expected one initial visit_node call")
         start = repo.fold(f.module, init[0].args[1])
         inc = None
+        # roles, not names: the closure's parameters are (node, depth); the child depth is whatever the
+        # `depth + k if <nesting node> else depth` expression is bound to
+        npar, dpar = (inner.args.args[0].arg, inner.args.args[1].arg) if len(inner.args.args) >= 2 else (None, None)
+        child_names = set()
         for n in ast.walk(inner):
-            if isinstance(n, ast.IfExp) and isinstance(n.body, ast.BinOp) and isinstance(n.body.op, ast.Add) and ast.unparse(n.body.left) == "current_depth" and isinstance(n.body.right, ast.Constant):
-                if ast.unparse(n.orelse) == "current_depth" and "NESTING_NODE_TYPES" in ast.unparse(n.test):
+            if isinstance(n, ast.IfExp) and isinstance(n.body, ast.BinOp) and isinstance(n.body.op, ast.Add) and ast.unparse(n.body.left) == dpar and isinstance(n.body.right, ast.Constant):
+                if ast.unparse(n.orelse) == dpar and "NESTING_NODE_TYPES" in ast.unparse(n.test):
                     inc = n.body.right.value
-        strict = any(isinstance(n, ast.Compare) and isinstance(n.ops[0], ast.Gt) and ast.unparse(n.left) == "current_depth" and ast.unparse(n.comparators[0]) == "max_depth" for n in ast.walk(inner))
-        rec_calls = [c for c in ast.walk(inner) if is_call_named(c, "visit_node")]
-        child_ok = rec_calls and all(len(c.args) > 1 and ast.unparse(c.args[1]) == "new_depth" for c in rec_calls)
-        loops_children = any(isinstance(n, ast.For) and ast.unparse(n.iter) in ("node.children", "node.named_children") for n in ast.walk(inner))
+                    child_names |= {t.id for a in ast.walk(inner) if isinstance(a, ast.Assign) and a.value is n for t in a.targets if isinstance(t, ast.Name)}
+        # the maximum: `if depth > m: m = depth` on a variable of the enclosing function
+        strict = any(isinstance(n, ast.If) and isinstance(n.test, ast.Compare) and isinstance(n.test.ops[0], ast.Gt) and ast.unparse(n.test.left) == dpar and isinstance(n.test.comparators[0], ast.Name)
+                     and any(isinstance(a, ast.Assign) and ast.unparse(a.targets[0]) == n.test.comparators[0].id and ast.unparse(a.value) == dpar for a in n.body) for n in ast.walk(inner))
+        rec_calls = [c for c in ast.walk(inner) if is_call_named(c, inner.name)]
+        child_ok = rec_calls and all(len(c.args) > 1 and ((isinstance(c.args[1], ast.Name) and c.args[1].id in child_names) or isinstance(c.args[1], ast.IfExp)) for c in rec_calls)
+        loops_children = any(isinstance(n, ast.For) and ast.unparse(n.iter) in (f"{npar}.children", f"{npar}.named_children") for n in ast.walk(inner))
         sigs[lang] = dict(start=start, inc=inc, strict=strict, loc=f.loc)
         if inc == 1 and child_ok and loops_children:
             run.ok(N1, f"{lang} increment", "children of a nesting node visited at current_depth + 1, others unchanged")
@@ -176,19 +185,29 @@ def check(run, ctx):
             run.finding(N3, nm, "threshold-test", f"{nm}: expected exactly one comparison with config.max_nesting_depth", f.loc)
             continue
         t = cmp_[0].test
-        good = ast.unparse(t) == "max_depth <= config.max_nesting_depth" and any(isinstance(s, ast.Continue) for s in cmp_[0].body)
-        if not good:
-            # equivalent spellings
-            good = ast.unparse(t) in ("config.max_nesting_depth >= max_depth",) and any(isinstance(s, ast.Continue) for s in cmp_[0].body)
+        # roles, not names: the depth is the first result of calculate_max_depth(...)
+        asg = [n for n in ast.walk(f.node) if isinstance(n, ast.Assign) and isinstance(n.value, ast.Call) and call_name(n.value) == "calculate_max_depth"]
+        dv = None
+        if asg:
+            tg = asg[0].targets[0]
+            dv = tg.elts[0].id if isinstance(tg, ast.Tuple) and isinstance(tg.elts[0], ast.Name) else tg.id if isinstance(tg, ast.Name) else None
+        run.require(dv is not None, f"{nm}: the depth returned by calculate_max_depth is not bound to a name")
+        l_, r_ = ast.unparse(t.left), ast.unparse(t.comparators[0])
+        op = type(t.ops[0]).__name__ if len(t.ops) == 1 else None
+        if r_ == dv and l_.endswith("max_nesting_depth"):     # limit <op> depth  ->  depth <op'> limit
+            op = {"GtE": "LtE", "Gt": "Lt", "LtE": "GtE", "Lt": "Gt"}.get(op, op)
+            l_, r_ = r_, l_
+        skips = any(isinstance(s_, (ast.Continue, ast.Return)) for s_ in cmp_[0].body)
+        reports = any(isinstance(c, ast.Call) and call_name(c).startswith("create_") for s_ in cmp_[0].body for c in ast.walk(s_))
+        good = l_ == dv and r_.endswith("max_nesting_depth") and ((op == "LtE" and skips and not reports) or (op == "Gt" and reports))
         if good:
-            run.ok(N3, f"{nm} threshold", "skip iff max_depth <= limit")
+            run.ok(N3, f"{nm} threshold", "reported iff depth > limit")
         else:
             run.finding(N3, nm, f"threshold:{norm(t)}", f"{nm}: the skip condition is `{norm(t)}`; a function is reported iff its depth strictly exceeds the limit", f.loc)
         # the compared value comes from calculate_max_depth and is the one handed to the builder
-        asg = [n for n in ast.walk(f.node) if isinstance(n, ast.Assign) and isinstance(n.targets[0], ast.Tuple) and isinstance(n.value, ast.Call) and call_name(n.value) == "calculate_max_depth"]
         b = [c for c in ast.walk(f.node) if isinstance(c, ast.Call) and call_name(c).startswith("create_") and call_name(c).endswith("nesting_violation")]
-        ok = asg and isinstance(asg[0].targets[0].elts[0], ast.Name) and asg[0].targets[0].elts[0].id == "max_depth" and b and len(b[0].args) > 1 and ast.unparse(b[0].args[1]) == "max_depth"
-        (run.ok(N3, f"{nm} message operand", "builder receives the compared max_depth") if ok else run.finding(N3, nm, "operand", f"{nm}: the depth handed to the violation builder is not the compared max_depth", f.loc))
+        ok = b and ((len(b[0].args) > 1 and ast.unparse(b[0].args[1]) == dv) or any(ast.unparse(k.value) == dv for k in b[0].keywords))
+        (run.ok(N3, f"{nm} message operand", "builder receives the compared depth") if ok else run.finding(N3, nm, "operand", f"{nm}: the depth handed to the violation builder is not the compared max_depth", f.loc))
     for nm in ("create_nesting_violation", "create_typescript_nesting_violation", "create_rust_nesting_violation"):
         f = repo.func(f"{PKG}.violation_builder.NestingViolationBuilder.{nm}")
         # the builder may delegate to a private helper: look at the flattened function (helpers inlined, parameters substituted)
@@ -244,9 +263,10 @@ def check(run, ctx):
         (run.ok(N5, f"python {fn}", "descends into the construct's blocks") if ok else run.finding(N5, f"python_analyzer.{fn}", "no-descent", f"{fn} does not descend into the construct's blocks", f.loc))
     for lang, cq in (("typescript", f"{PKG}.typescript_analyzer.TypeScriptNestingAnalyzer.calculate_max_depth"), ("rust", f"{PKG}.rust_analyzer.RustNestingAnalyzer.calculate_max_depth")):
         f = repo.func(cq)
-        inner = next(n for n in ast.walk(f.node) if isinstance(n, ast.FunctionDef) and n.name == "visit_node")
+        inner = next((n for n in ast.walk(f.node) if isinstance(n, ast.FunctionDef) and n is not f.node and any(isinstance(c, ast.Call) and isinstance(c.func, ast.Name) and c.func.id == n.name for c in ast.walk(n))), None)
+        run.require(inner is not None, f"{lang}: self-recursive depth-walker closure not found")
         loops = [n for n in ast.walk(inner) if isinstance(n, ast.For)]
-        ok = len(loops) == 1 and ast.unparse(loops[0].iter) == "node.children" and not any(isinstance(x, (ast.If, ast.Continue, ast.Break)) for x in loops[0].body) and not any(isinstance(x, ast.Return) for x in ast.walk(inner))
+        ok = len(loops) == 1 and ast.unparse(loops[0].iter) == f"{inner.args.args[0].arg}.children" and not any(isinstance(x, (ast.If, ast.Continue, ast.Break)) for x in loops[0].body) and not any(isinstance(x, ast.Return) for x in ast.walk(inner))
         (run.ok(N5, f"{lang} visit_node", "for child in node.children: visit_node(child, ...) unconditionally") if ok else run.finding(N5, f"{lang} visit_node", "pruned-walk", f"the {lang} depth walker does not visit every child unconditionally", f.loc))
     for rec in shared.whole_tree_finders(ctx):
         if ".nesting." in rec["func"]:
@@ -274,7 +294,7 @@ def _py_inc(f):
     rec_after = False
     seen_inc = False
     for st in ast.walk(f.node):
-        if isinstance(st, ast.AugAssign) and isinstance(st.op, ast.Add) and ast.unparse(st.target) == "current_depth" and isinstance(st.value, ast.Constant):
+        if isinstance(st, ast.AugAssign) and isinstance(st.op, ast.Add) and isinstance(st.target, ast.Name) and st.target.id in {a.arg for a in f.node.args.args} and isinstance(st.value, ast.Constant):
             inc = st.value.value
     # order: the += precedes tracker.record in source order
     body = list(ast.walk(f.node))
